@@ -592,6 +592,11 @@ private:
       return nullptr;
     }
 
+    detail::dynamic_check(
+      count <= std::numeric_limits<std::size_t>::max() /
+                 sizeof(T_CopyAndVerifyRangeEl),
+      "copy_and_verify_range/copy_and_verify_buffer_address: element count "
+      "overflows");
     detail::check_range_doesnt_cross_app_sbx_boundary<T_Sbx>(
       start, count * sizeof(T_CopyAndVerifyRangeEl));
 
